@@ -3,9 +3,9 @@ package drive
 import (
 	"errors"
 	"fmt"
-	"strings"
 	"os"
 	"path/filepath"
+	"strings"
 
 	"github.com/ostafen/clover/v2/document"
 	"github.com/ostafen/clover/v2/query"
@@ -83,10 +83,22 @@ func (f *faultRun) ops() []faultOp {
 		{"ReplaceById", false, func() error { return db.ReplaceById(c, exist, mk(docC, exist)) }},
 		{"UpdateById", false, func() error { return db.UpdateById(c, exist, setP) }},
 		{"Update", false, func() error { return db.Update(critQ(), map[string]interface{}{"p": int64(1), idxField: int64(9)}) }},
+		{"Update(every indexed field)", false, func() error {
+			return db.Update(critQ(), map[string]interface{}{"a": int64(11), "b": int64(12), "n.b": int64(13), "s": "new"})
+		}},
+		{"UpdateById(every indexed field)", false, func() error {
+			return db.UpdateById(c, exist, func(d *document.Document) *document.Document {
+				n := d.Copy()
+				n.SetAll(map[string]interface{}{"a": int64(21), "b": int64(22), "n.b": int64(23)})
+				return n
+			})
+		}},
 		{"Update(sort,skip,limit)", false, func() error { return db.Update(sortQ(), map[string]interface{}{"p": int64(2), idxField: int64(-1)}) }},
 		{"UpdateFunc", false, func() error { return db.UpdateFunc(critQ(), setP) }},
 		{"UpdateFunc(sort,limit)", false, func() error { return db.UpdateFunc(sortQ2(), setP) }},
-		{"UpdateFunc(delete)", false, func() error { return db.UpdateFunc(critQ(), func(*document.Document) *document.Document { return nil }) }},
+		{"UpdateFunc(delete)", false, func() error {
+			return db.UpdateFunc(critQ(), func(*document.Document) *document.Document { return nil })
+		}},
 		{"Delete", false, func() error { return db.Delete(critQ()) }},
 		{"Delete(sort,skip,limit)", false, func() error { return db.Delete(sortQ()) }},
 		{"Delete(all)", false, func() error { return db.Delete(query.NewQuery(c)) }},
@@ -465,7 +477,9 @@ func RunInvalid(c *core.Ctx) {
 			return out
 		}
 		add(fmt.Sprintf("Insert(duplicate of stored doc at %d)", pos), func() error { return db.Insert("t", batch(func() *document.Document { return mkdoc(ids[0]) })...) })
-		add(fmt.Sprintf("Insert(malformed _id at %d)", pos), func() error { return db.Insert("t", batch(func() *document.Document { return mkdoc("not-a-uuid") })...) })
+		add(fmt.Sprintf("Insert(malformed _id at %d)", pos), func() error {
+			return db.Insert("t", batch(func() *document.Document { return mkdoc("not-a-uuid") })...)
+		})
 		add(fmt.Sprintf("Insert(non-string _id at %d)", pos), func() error { return db.Insert("t", batch(func() *document.Document { return mkdoc(int64(7)) })...) })
 		add(fmt.Sprintf("Insert(bad _expiresAt at %d)", pos), func() error {
 			return db.Insert("t", batch(func() *document.Document { x := mkdoc(r.UUID()); x.Set("_expiresAt", "soon"); return x })...)
@@ -540,12 +554,63 @@ func RunInvalid(c *core.Ctx) {
 			})
 		})
 	}
-	add("Update(map with bad _expiresAt)", func() error { return db.Update(query.NewQuery("t"), map[string]interface{}{"_expiresAt": "x", "a": int64(1)}) })
-	add("Update(map with bad _id)", func() error { return db.Update(query.NewQuery("t").Where(query.Field("u").GtEq(1)), map[string]interface{}{"_id": "x", "a": int64(1)}) })
-	add("UpdateById(bad _expiresAt)", func() error {
-		return db.UpdateById("t", ids[0], func(doc *document.Document) *document.Document { doc.Set("a", int64(50)); doc.Set("_expiresAt", true); return doc })
+	if c.Case%4 == 1 {
+		// more documents in one call than any plausible internal batch size, the LAST one a duplicate
+		add("Insert(10500 documents, duplicate last)", func() error {
+			big := make([]*document.Document, 10500)
+			for i := range big {
+				x := document.NewDocument()
+				x.Set("_id", r.UUID())
+				x.Set("a", int64(i%7))
+				big[i] = x
+			}
+			big[len(big)-1].Set("_id", big[3].ObjectId())
+			return db.Insert("t", big...)
+		})
+		add("Insert(10500 documents, duplicate of a stored one last)", func() error {
+			big := make([]*document.Document, 10500)
+			for i := range big {
+				x := document.NewDocument()
+				x.Set("_id", r.UUID())
+				big[i] = x
+			}
+			big[len(big)-1].Set("_id", ids[0])
+			return db.Insert("t", big...)
+		})
+	}
+	// an update function that panics on a later document: the caller may recover, the operation must not be half applied
+	add("UpdateFunc(updater panics at the middle document)", func() (e error) {
+		defer func() {
+			if r := recover(); r != nil {
+				e = fmt.Errorf("updater panicked: %v", r)
+			}
+		}()
+		mid := ids[len(ids)/2]
+		return db.UpdateFunc(query.NewQuery("t"), func(doc *document.Document) *document.Document {
+			if doc.ObjectId() == mid {
+				panic("user code failed")
+			}
+			nd := doc.Copy()
+			nd.Set("a", int64(77))
+			return nd
+		})
 	})
-	add("UpdateById(missing document)", func() error { return db.UpdateById("t", r.UUID(), func(doc *document.Document) *document.Document { return doc }) })
+	add("Update(map with bad _expiresAt)", func() error {
+		return db.Update(query.NewQuery("t"), map[string]interface{}{"_expiresAt": "x", "a": int64(1)})
+	})
+	add("Update(map with bad _id)", func() error {
+		return db.Update(query.NewQuery("t").Where(query.Field("u").GtEq(1)), map[string]interface{}{"_id": "x", "a": int64(1)})
+	})
+	add("UpdateById(bad _expiresAt)", func() error {
+		return db.UpdateById("t", ids[0], func(doc *document.Document) *document.Document {
+			doc.Set("a", int64(50))
+			doc.Set("_expiresAt", true)
+			return doc
+		})
+	})
+	add("UpdateById(missing document)", func() error {
+		return db.UpdateById("t", r.UUID(), func(doc *document.Document) *document.Document { return doc })
+	})
 	add("ReplaceById(missing document)", func() error { id := r.UUID(); return db.ReplaceById("t", id, mkdoc(id)) })
 	add("ReplaceById(mismatching id)", func() error { return db.ReplaceById("t", ids[0], mkdoc(ids[len(ids)-1])) })
 	add("ReplaceById(invalid document)", func() error { x := mkdoc(ids[0]); x.Set("_expiresAt", "never"); return db.ReplaceById("t", ids[0], x) })
@@ -569,8 +634,12 @@ func RunInvalid(c *core.Ctx) {
 	missing := query.NewQuery("nope")
 	for name, f := range map[string]func() error{
 		"Insert": func() error { return db.Insert("nope", mkdoc(r.UUID())) }, "Save": func() error { return db.Save("nope", mkdoc(nil)) },
-		"ReplaceById": func() error { return db.ReplaceById("nope", ids[0], mkdoc(ids[0])) }, "UpdateById": func() error { return db.UpdateById("nope", ids[0], func(x *document.Document) *document.Document { return x }) },
-		"Update": func() error { return db.Update(missing, map[string]interface{}{"a": 1}) }, "UpdateFunc": func() error { return db.UpdateFunc(missing, func(x *document.Document) *document.Document { return x }) },
+		"ReplaceById": func() error { return db.ReplaceById("nope", ids[0], mkdoc(ids[0])) }, "UpdateById": func() error {
+			return db.UpdateById("nope", ids[0], func(x *document.Document) *document.Document { return x })
+		},
+		"Update": func() error { return db.Update(missing, map[string]interface{}{"a": 1}) }, "UpdateFunc": func() error {
+			return db.UpdateFunc(missing, func(x *document.Document) *document.Document { return x })
+		},
 		"Delete": func() error { return db.Delete(missing) }, "DeleteById": func() error { return db.DeleteById("nope", ids[0]) }, "DropCollection": func() error { return db.DropCollection("nope") },
 		"CreateIndex": func() error { return db.CreateIndex("nope", "a") }, "DropIndex": func() error { return db.DropIndex("nope", "a") }, "FindAll": func() error { _, e := db.FindAll(missing); return e },
 		"Count": func() error { _, e := db.Count(missing); return e }, "Count(criteria)": func() error { _, e := db.Count(missing.Where(query.Field("a").Eq(1))); return e },
